@@ -30,6 +30,8 @@ type Scheduler struct {
 	Periodic  []*Job   // periodic jobs (never run by the stub; harnesses fire them)
 	// OnSchedule, when set, observes the instant a job comes to exist.
 	OnSchedule func(name string)
+	// OnRun, when set, observes the instant an existing job is started early.
+	OnRun func(name string)
 
 	mu sync.Mutex // native runs only: the real code calls the scheduler from several goroutines
 }
@@ -108,6 +110,9 @@ func (s *Scheduler) RunJob(_ context.Context, name string) error {
 		return scheduler.ErrNoSuchJob
 	}
 	s.RunNow = append(s.RunNow, name)
+	if s.OnRun != nil {
+		s.OnRun(name)
+	}
 	return nil
 }
 
@@ -130,6 +135,9 @@ func (s *Scheduler) RunJobIfExists(_ context.Context, name string) {
 	defer s.guard()()
 	if s.exists(name) {
 		s.RunNow = append(s.RunNow, name)
+		if s.OnRun != nil {
+			s.OnRun(name)
+		}
 	}
 }
 
